@@ -25,6 +25,37 @@ def _rec_fallback(*a, **kw):
     return _orig_fallback(*a, **kw)
 _sdm.symbolic_attractor_fallback = _rec_fallback
 
+# ---- candidate pipeline recording (C08): every solver call made by compute_attractor_candidates ----
+import biobalm._sd_attractors.attractor_candidates as _ac
+_PIPE = []          # one record per compute_attractor_candidates call during the current op
+_orig_cac = _sdm.compute_attractor_candidates
+_orig_heur = _ac.make_heuristic_retained_set
+_orig_cfp = _ac.compute_fixed_point_reduced_STG
+def _rec_cac(sd, node_id, greedy, simulation, pint):
+    rec = {"node": node_id, "greedy": bool(greedy), "simulation": bool(simulation), "space": dict(sd.node_data(node_id)["space"]),
+           "calls": [], "nfvs": None, "rinit": None, "avoid": None, "outcome": None, "cfg": dict(sd.config)}
+    _PIPE.append(rec)
+    try:
+        res = _orig_cac(sd, node_id, greedy, simulation, pint)
+        rec["outcome"] = [dict(x) for x in res]
+        return res
+    except RuntimeError:
+        rec["outcome"] = "raised"
+        raise
+def _rec_heur(graph, nfvs, avoid_dnf):
+    r = _orig_heur(graph, nfvs, avoid_dnf)
+    if _PIPE:
+        _PIPE[-1]["nfvs"] = list(nfvs); _PIPE[-1]["avoid"] = [dict(a) for a in avoid_dnf]; _PIPE[-1]["rinit"] = list(r.items())
+    return r
+def _rec_cfp(petri_net, retained_set={}, ensure_subspace={}, avoid_subspaces=[], solution_limit=None):
+    res = _orig_cfp(petri_net, retained_set, ensure_subspace=ensure_subspace, avoid_subspaces=avoid_subspaces, solution_limit=solution_limit)
+    if _PIPE:
+        _PIPE[-1]["calls"].append({"ret": list(retained_set.items()), "limit": solution_limit, "avoid": [dict(a) for a in avoid_subspaces], "res": [dict(x) for x in res]})
+    return res
+_sdm.compute_attractor_candidates = _rec_cac
+_ac.make_heuristic_retained_set = _rec_heur
+_ac.compute_fixed_point_reduced_STG = _rec_cfp
+
 def classify_exc(e):
     if isinstance(e, RuntimeError):
         return "raised:motiflimit" if "stable motifs" in str(e) else "raised:runtime"
@@ -37,6 +68,7 @@ def classify_exc(e):
 def apply_real(sd, op, nm):
     """returns (result string, tape string or None, sd (pickle may replace it))"""
     _TAPE.clear()
+    _PIPE.clear()
     k = op[0]
     tape = None
     try:
